@@ -41,7 +41,7 @@ Definition decode (c : Z) : SF.op Z Z :=
 Definition digest_hist (fdmode : bool) (h : list Z) : int :=
   match run_i fdmode (map decode h) (SF.init Z Z Z Z 2 1) with
   | (Ok (l, t), tr) => mix (mix (fold_left dig_ev tr (fold_left dig_ans l 17%uint63)) (nfev _ _ _ _ t)) (ngev _ _ _ _ t)
-  | (Raise _, _) => 0%uint63
+  | (_, _) => 0%uint63
   end.
 
 Fixpoint all_hists (alphabet : list Z) (n : nat) : list (list Z) :=
